@@ -79,7 +79,48 @@ class Broken:
         self.present = present
 
 
-CLASSES = {c.__name__: c for c in (A1, A2, A3, B3, P2, H2, Plain, PlainEx, Fielded, Broken)}
+class KW:
+    """keyword-only constructor argument: inspect.getfullargspec(cls).args is just ['self']"""
+
+    def __init__(self, *, p=1.0):
+        self.p = p
+
+
+class Renamed:
+    """stores its constructor argument under another attribute name"""
+
+    def __init__(self, p=1.0):
+        self.value = p
+
+
+class DictSub(dict):
+    """a dict subclass with a __dict__: the walk treats it as an object (class name, constructor arguments), not as a dict"""
+
+    def __init__(self, items=(), note=0.5):
+        super().__init__(items)
+        self.note = note
+
+
+class C2:
+    """a model class that HAS prior configuration (written by the driver into <cwd>/config/priors)"""
+
+    def __init__(self, a=0.0, b=1.0):
+        self.a = a
+        self.b = b
+
+
+CLASSES = {c.__name__: c for c in (A1, A2, A3, B3, P2, H2, Plain, PlainEx, Fielded, Broken, KW, Renamed, DictSub, C2)}
+
+PRIOR_CONFIG = """C2:
+  a:
+    type: Uniform
+    lower_limit: 0.0
+    upper_limit: 7.0
+  b:
+    type: Uniform
+    lower_limit: -3.0
+    upper_limit: 3.0
+"""
 
 # ordered constructor arguments of the model classes: (arg, kind) ; kind in float|tuple2|any
 SIGNATURES = {
@@ -89,4 +130,5 @@ SIGNATURES = {
     "B3": [("x", "float"), ("y", "float"), ("z", "float")],
     "P2": [("c", "float"), ("pos", "tuple2")],
     "H2": [("inner", "any"), ("s", "float")],
+    "C2": [("a", "float"), ("b", "float")],
 }
